@@ -440,6 +440,54 @@ def r11_constant_numeric_table(ctx, R='C05.R11'):
     ctx.check(R, ok, gq.node, gq, f'{label}: scale {sc!r} zero point {zp!r}', f'expected scale {float(want_sc):.6g}, zero point {want_zp}, {bits} bits, no data, no quantized dimension')
 
 
+
+def r13_stored_bytes(ctx, R='C05.R13'):
+  """The real quantize_tensor transformation on small integer data: the bytes that end in the tensor's buffer are
+  decoded again and must be exactly the quantized values in row-major order - one byte each for 8 bits, two values per
+  byte (even element low nibble, odd element high nibble, one zero nibble after an odd COUNT, nothing else) for 4
+  bits - whatever the shape: odd rows, one dimension, even rows."""
+  from sa import absint  # pylint: disable=g-import-not-at-top
+  from sa.ndarr import NdArr  # pylint: disable=g-import-not-at-top
+  rs = ctx.rule(R, 'stored bytes decode to the quantized values in row-major order (8-bit: one byte each; 4-bit: two per byte, padded only at the very end)', floor=1)
+  qt = ctx.repo.func(f'{QTENS}:quantize_tensor')
+  ctx.instance(R)
+  hooks = {'schema_py_generated.QuantizationParametersT': lambda a, k: Obj('x:QuantizationParametersT', {'scale': None, 'zeroPoint': None, 'quantizedDimension': 0})}
+  it = absint.Interp(ctx.repo, ctx.ev, hooks=hooks)
+  rs.exhaustive = True
+  for bits, shape in ((4, (3, 5)), (4, (4, 4)), (4, (5,)), (4, (2, 3, 3)), (4, (1, 1)), (8, (3, 5)), (8, (2, 2))):
+    n = 1
+    for x in shape:
+      n *= x
+    lim = 7 if bits == 4 else 127
+    vals = [((k * 5 + 3) % (2 * lim + 1)) - lim for k in range(n)]
+    data = NdArr(shape, vals, 'i')
+    P = Obj('qtyping:UniformQuantParams', {'num_bits': bits, 'quantized_dimension': None, 'scale': NdArr((1,), [1]), 'zero_point': NdArr((1,), [0], 'i'), 'symmetric': True,
+                                           'quantized_data': data, 'block_size': 0, 'hadamard': None})
+    buf = Obj('x:BufferT', {'data': 'FLOAT-BYTES', 'offset': 0, 'size': 0})
+    tensor = Obj('x:TensorT', {'name': b'w', 'buffer': 1, 'type': 0, 'shape': list(shape), 'quantization': None})
+    ti = Obj('transformations.transformation_utils:TransformationInput', {'tensor_id': 0, 'op_codes': [], 'buffers': [Obj('x:BufferT', {'data': None}), buf],
+                                                                        'subgraph': Obj('x:SubGraphT', {'tensors': [tensor], 'operators': []}), 'producer': -1, 'consumers': [0], 'quant_params': P})
+    outs = it.outcomes(qt, [ti], copy_args=False)
+    label = f'{bits}-bit data of shape {shape}'
+    stored = buf.fields['data']
+    if len(outs) != 1 or outs[0].kind != 'return' or not isinstance(stored, (NdArr, bytes, bytearray)):
+      ctx.check(R, False, qt.node, qt, label, f'not decided: {[o.short()[:80] for o in outs]}, buffer holds {stored!r}'[:300])
+      continue
+    raw = list(stored.data) if isinstance(stored, NdArr) else list(stored)
+    raw = [x & 0xFF for x in raw]
+    if bits == 8:
+      got = [b - 256 if b > 127 else b for b in raw]
+      want_len = n
+    else:
+      nib = []
+      for b in raw:
+        nib += [b & 0x0F, b >> 4]
+      got = [x - 16 if x > 7 else x for x in nib]
+      want_len = (n + 1) // 2
+    ok = len(raw) == want_len and got[:n] == vals and all(x == 0 for x in got[n:])
+    ctx.check(R, ok, qt.node, qt, f'{label}: {len(raw)} bytes stored, decode to {got[:12]}{"..." if len(got) > 12 else ""}',
+              f'the buffer must hold {want_len} bytes that decode to the values {vals[:12]}{"..." if n > 12 else ""} in row-major order (the runtime reads the tensor as one flat array)')
+
 def run(ctx):
   ctx.assume('int4 storage: two values per byte, element 2i in the low nibble (O7)')
   shared.rule_ladders(ctx, 'C05.R1')
@@ -454,3 +502,4 @@ def run(ctx):
   r10_constant_carries_data(ctx)
   r11_constant_numeric_table(ctx)
   shared.rule_operator_sweep(ctx, 'C05.R12')
+  r13_stored_bytes(ctx)
